@@ -68,7 +68,7 @@ def translate_c_to_projectq(source_circuit):
             projectq_circuit += f"{GATE_PROJECTQ[gate.name]} | Qureg[{gate.target[0]}]\n"
         elif gate.name in {"RX", "RY", "RZ", "PHASE"}:
             projectq_circuit += f"{GATE_PROJECTQ[gate.name]}({gate.parameter}) | Qureg[{gate.target[0]}]\n"
-        elif gate.name in {"CNOT"}:
+        elif gate.name in {"CNOT"} and len(gate.control) == 1:
             projectq_circuit += f"{GATE_PROJECTQ[gate.name]} | ( Qureg[{gate.control[0]}], Qureg[{gate.target[0]}] )\n"
         else:
             raise ValueError(f"Gate '{gate.name}' not supported on backend projectQ")
@@ -99,8 +99,10 @@ def translate_c_from_projectq(projectq_str):
     # Ignore Measure instructions
     projectq_str = re.sub(r'Measure(.*)\n', '', projectq_str)
 
-    # Ignore allocate and deallocate instructions.
-    # Number of qubits is inferred by the abstract circuit, no (de)allocation will occur mid-circuit.
+    # Ignore allocate and deallocate instructions, but remember how many qubits were allocated: idle qubits
+    # are part of the circuit (its width), no (de)allocation will occur mid-circuit.
+    allocated_qubits = [int(index) for index in re.findall(r'Allocate \| Qureg\[(\d+)\]', projectq_str)]
+    n_qubits = max(allocated_qubits) + 1 if allocated_qubits else 0
     projectq_str = re.sub(r'(.*)llocate(.*)\n', '', projectq_str)
     projectq_gates = [instruction for instruction in projectq_str.split("\n") if instruction]
 
@@ -115,7 +117,7 @@ def translate_c_from_projectq(projectq_str):
 
         if gate_name in {"H", "X", "Y", "Z", "S", "T"}:
             gate = Gate(gate_mapping[gate_name], qubit_indices[0])
-        elif gate_name in {"Rx", "Ry", "Rz", "PHASE"}:
+        elif gate_name in {"Rx", "Ry", "Rz", "R"}:
             gate = Gate(gate_mapping[gate_name], qubit_indices[0], parameter=parameters[0])
         # #TODO: Rethink the use of enums for gates to set the equality CX=CNOT and enable other refactoring
         elif gate_name in {"CX"}:
@@ -123,6 +125,10 @@ def translate_c_from_projectq(projectq_str):
         else:
             raise ValueError(f"Gate '{gate_name}' not supported with project2abs translation")
         abs_circ.add_gate(gate)
+
+    # Keep the allocated width when some allocated qubits are idle
+    if n_qubits > abs_circ.width:
+        abs_circ = Circuit(n_qubits=n_qubits) + abs_circ
 
     return abs_circ
 
